@@ -1,4 +1,5 @@
 import SaModel.Lemmas.C01NewShape
+import SaModel.Lemmas.C01RawNorm
 /-
 C01 — serialized arrays decode to exactly the input records.
 
@@ -203,17 +204,86 @@ where
 /-- **R2.** The row a successful push appends is the documented one: `Spec.interpDT` at the field the builder was
 built for (records matched by name, numbers by value, variants by index) — for every builder family `Shape`
 covers (all but dictionaries with a non-integer key builder or a value builder other than Utf8/LargeUtf8) and every
-value without raw key/value call streams.  View builders: a successful push keeps every length and buffer offset
+value whose raw key/value call streams (`SVal.mapRaw`) alternate (`hraw`; decidable, `= !Spec.containsMalformed x`).
+At a Map position that excludes nothing that could succeed (`map_refuses_non_alternating`); at a struct position it is
+needed (`struct_stream_needed` below: the struct builder accepts every stream, `Spec.interpDT` calls the others
+`malformed`; what the builder stores for them: `struct_raw_stored`).  `hnar`: when the value contains a raw stream at
+all, every struct type of the field has fewer than `usize::MAX` fields (`narrowDT`; the struct builder uses
+`next = usize::MAX` as "unknown key" — no Rust `Vec` is that long, the model's lists are unbounded).  View builders: a successful push keeps every length and buffer offset
 ≤ `i32::MAX` (the builder refuses more), so the descriptor reads back exactly the pushed bytes; `WFB` carries the
 buffer bound (`WFB_small`), no size hypothesis is needed.  Together with R1: C01 (content), C05 (ok ⇒ exact) and
 C11 (the row depends on the value only through `interpDT`). -/
 theorem push_interp (ext : Ext) (x : SVal) (b b' : B) (dt : DataType) (n : Bool) (md : Metadata)
-    (hraw : noRaw x = true) (hwf : WFB b) (hsafe : Safe b) (hshape : Shape b dt n md) (h : push ext b x = .ok b') :
+    (hraw : structStreamsAlternate x = true) (hnar : noRaw x = true ∨ narrowDT dt = true)
+    (hwf : WFB b) (hsafe : Safe b) (hshape : Shape b dt n md) (h : push ext b x = .ok b') :
     WFB b' ∧ Safe b' ∧ Shape b' dt n md ∧ ∃ lv, dec b' = dec b ++ [lv] ∧ interpDT ext dt n md x = .ok lv := by
   have ht := push_takeRest ext x b b' h
   obtain ⟨hw', lv, hd⟩ := Build.push_appends ext x b b' hwf hsafe h
-  exact ⟨hw', Safe.of_takeRest ht hsafe, Shape.of_takeRest ht hshape, lv, hd,
-    Build.push_interp ext x b b' dt n md lv hraw hwf hsafe hshape h hd (WFB_small b' hw')⟩
+  refine ⟨hw', Safe.of_takeRest ht hsafe, Shape.of_takeRest ht hshape, lv, hd, ?_⟩
+  rcases hnar with hno | hnar
+  · exact Build.push_interp ext false x b b' dt n md lv hno (fun hn => by cases hn) hwf hsafe hshape h hd (WFB_small b' hw')
+  · exact Build.push_interp ext true x b b' dt n md lv hraw (fun _ => hnar) hwf hsafe hshape h hd (WFB_small b' hw')
+
+/-! ### raw key/value call streams at a struct position
+
+A Map builder refuses every stream that does not alternate (`map_refuses_non_alternating`).  A struct builder accepts
+EVERY stream: `serialize_map_key` only records which field comes next, `serialize_map_value` writes it (or nothing when
+the last key was no field, or there was no key).  The documentation gives such streams no meaning (`Spec.interpDT`:
+`malformed`; serde's contract for `SerializeMap` is key, value, key, value …), so R2 cannot say "the documented row"
+for them; it says what is stored instead. -/
+
+/-- **What a struct builder does with an arbitrary raw stream**: the same as with `normOps ops`, the pairs whose value
+directly follows its key — a value without a key is dropped, a key without a value leaves its field unseen (`end`
+then gives it a null if it is nullable and refuses otherwise).  The two final states differ at most in
+`StructBuilder::next`, the lookup hint that `start` resets. -/
+theorem struct_raw_norm (ext : Ext) {p : String} {len : Nat} {v : Validity} {fs : BL} {cached next seen} {ops : SMapOps}
+    {b' : B} (h : push ext (.struct p len v fs cached next seen) (.mapRaw ops) = .ok b') :
+    ∃ p' len' v' fs' cached' n1 n2 seen', b' = .struct p' len' v' fs' cached' n1 seen' ∧
+      push ext (.struct p len v fs cached next seen) (.mapRaw (normOps ops)) = .ok (.struct p' len' v' fs' cached' n2 seen') := by
+  simp only [push, ctx_ok] at h ⊢
+  obtain ⟨s0, h0, h⟩ := (bind_ok _ _ _).1 h
+  obtain ⟨s1, h1, h⟩ := (bind_ok _ _ _).1 h
+  obtain ⟨s2, h2, h⟩ := (bind_ok _ _ _).1 h
+  cases h
+  obtain ⟨n, hn⟩ := pushStructOps_norm ext ops s0 s1 h1
+  simp only [SS.finishRow] at h2
+  obtain ⟨fs2, hf, h2⟩ := (bind_ok _ _ _).1 h2
+  cases h2
+  refine ⟨s1.path, s1.len, s1.validity, fs2, s1.cached, s1.next, n, s1.seen, rfl, ?_⟩
+  simp only [h0, hn, bind, Except.bind, SS.finishRow, hf]
+  rfl
+
+/-- **R2 for an arbitrary raw stream at a struct position**: the row the struct builder appends is the documented row
+of the NORMALISED stream `normOps ops` (no hypothesis that `ops` alternates; the streams inside the surviving pairs
+alternate).  For an alternating stream `normOps ops = ops` (`normOps_id`) and this is R2. -/
+theorem struct_raw_stored (ext : Ext) {p : String} {len : Nat} {v : Validity} {fs : BL} {cached next seen} (ops : SMapOps)
+    (b' : B) (sfs : Fields) (n : Bool) (md : Metadata)
+    (hraw : ssaO (normOps ops) = true) (hnar : narrowDT (.struct sfs) = true)
+    (hwf : WFB (.struct p len v fs cached next seen)) (hsafe : Safe (.struct p len v fs cached next seen))
+    (hshape : Shape (.struct p len v fs cached next seen) (.struct sfs) n md)
+    (h : push ext (.struct p len v fs cached next seen) (.mapRaw ops) = .ok b') :
+    ∃ lv, dec b' = dec (.struct p len v fs cached next seen) ++ [lv] ∧
+      interpDT ext (.struct sfs) n md (.mapRaw (normOps ops)) = .ok lv := by
+  obtain ⟨p', len', v', fs', cached', n1, n2, seen', rfl, h'⟩ := struct_raw_norm ext h
+  obtain ⟨_, _, _, lv, hd, hi⟩ := push_interp ext _ _ _ _ n md (by simpa [structStreamsAlternate] using hraw)
+    (Or.inr hnar) hwf hsafe hshape h'
+  exact ⟨lv, by rw [dec_struct] at hd ⊢; exact hd, hi⟩
+
+/-- **The exclusion `structStreamsAlternate` is needed (and `Spec.interpDT` does not match the struct builder on
+malformed streams).**  Column `a : Int32?`; a record that is a raw stream with a value but no key, or a key but no
+value: every other hypothesis of R3 holds, serialization SUCCEEDS and stores the row `{a: null}`, while the documented
+mapping has no row for the record (`malformed`).  The stored row is the documented row of the normalised (here: empty)
+stream, as `struct_raw_stored` says. -/
+theorem struct_stream_needed :
+    let fields := [Field.mk "a" .int32 true []]
+    let x1 := SVal.mapRaw (.value (.int .i32 1) .nil)
+    let x2 := SVal.mapRaw (.key (.str "a") .nil)
+    structStreamsAlternate x1 = false ∧ structStreamsAlternate x2 = false ∧
+    fields.all coveredF = true ∧ narrowRoot fields = true ∧
+    (do let root ← runRows {} fields [x1, x2]; pure (decRoot root) : R (List (List LVal))) = .ok [[.null, .null]] ∧
+    interpRow {} fields x1 = Spec.malformed ∧ interpRow {} fields x2 = Spec.malformed ∧
+    interpRow {} fields (.mapRaw (normOps (.value (.int .i32 1) .nil))) = .ok (.struct (.cons "a" .null .nil)) := by
+  decide +kernel
 
 /-- `build_builder` establishes `Shape` for every covered data type -/
 theorem newDT_shape (dt : DataType) (path : String) (n : Bool) (md : Metadata) (b : B) (hc : covered dt = true)
@@ -232,24 +302,29 @@ theorem foldl_push_small (ext : Ext) : ∀ (rows : List SVal) (b b' : B), rows.f
     exact push_small ext x b b1 h1 (foldl_push_small ext rest b1 b' h hs)
 
 theorem foldl_push_interp (ext : Ext) (dt : DataType) (n : Bool) (md : Metadata) : ∀ (rows : List SVal) (b b' : B),
-    (∀ x ∈ rows, noRaw x = true) → WFB b → Safe b → Shape b dt n md → rows.foldlM (push ext) b = .ok b' →
+    (∀ x ∈ rows, structStreamsAlternate x = true) → ((∀ x ∈ rows, noRaw x = true) ∨ narrowDT dt = true) →
+    WFB b → Safe b → Shape b dt n md → rows.foldlM (push ext) b = .ok b' →
     ∃ ls, dec b' = dec b ++ ls ∧ All2 (fun lv x => interpDT ext dt n md x = .ok lv) ls rows
-  | [], b, b', _, _, _, _, h => by
+  | [], b, b', _, _, _, _, _, h => by
     simp [List.foldlM, pure, Except.pure] at h; subst h
     exact ⟨[], by simp, .nil⟩
-  | x :: rest, b, b', hraw, hwf, hs, hsh, h => by
+  | x :: rest, b, b', hraw, hnar, hwf, hs, hsh, h => by
     simp only [List.foldlM] at h
     obtain ⟨b1, h1, h⟩ := (bind_ok _ _ _).1 h
-    obtain ⟨hw1, hs1, hsh1, lv, hd1, hi⟩ := push_interp ext x b b1 dt n md (hraw x (by simp)) hwf hs hsh h1
-    obtain ⟨ls, hd, hall⟩ := foldl_push_interp ext dt n md rest b1 b' (fun y hy => hraw y (by simp [hy])) hw1 hs1 hsh1 h
+    obtain ⟨hw1, hs1, hsh1, lv, hd1, hi⟩ := push_interp ext x b b1 dt n md (hraw x (by simp))
+      (hnar.imp (fun hno => hno x (by simp)) id) hwf hs hsh h1
+    obtain ⟨ls, hd, hall⟩ := foldl_push_interp ext dt n md rest b1 b' (fun y hy => hraw y (by simp [hy]))
+      (hnar.imp (fun hno y hy => hno y (by simp [hy])) id) hw1 hs1 hsh1 h
     exact ⟨lv :: ls, by rw [hd, hd1]; simp, .cons hi hall⟩
 
 /-- **R3.** `runRows` (all records pushed into a fresh root): the rows the root holds are exactly the documented
 rows `interpRow` of the records, in order; the root is a struct of `rows.length` rows without validity, so row `i`
-is the struct of the `i`-th entries of the columns, and every column has length `rows.length`. -/
+is the struct of the `i`-th entries of the columns, and every column has length `rows.length`.
+`hraw` / `hnar` as in R2 (`narrowRoot fields`: fewer than `usize::MAX` fields at every struct level, the root included). -/
 theorem runRows_interp (ext : Ext) (fields : List Field) (rows : List SVal) (root0 root : B)
     (hc : fields.all coveredF = true) (h0 : newRoot fields = .ok root0) (hsafe : Safe root0)
-    (hraw : ∀ x ∈ rows, noRaw x = true) (h : runRows ext fields rows = .ok root) :
+    (hraw : ∀ x ∈ rows, structStreamsAlternate x = true)
+    (hnar : (∀ x ∈ rows, noRaw x = true) ∨ narrowRoot fields = true) (h : runRows ext fields rows = .ok root) :
     All2 (fun lv x => interpRow ext fields x = .ok lv) (dec root) rows ∧
     (∀ col ∈ decRoot root, col.length = rows.length) ∧
     ∃ p fs cached next seen, root = .struct p rows.length none fs cached next seen ∧
@@ -259,7 +334,7 @@ theorem runRows_interp (ext : Ext) (fields : List Field) (rows : List SVal) (roo
   simp only [runRows, h0] at h'
   have h' : rows.foldlM (push ext) root0 = .ok root := h'
   obtain ⟨hw0, hd0, ht0⟩ := newRoot_fresh h0
-  obtain ⟨ls, hd, hall⟩ := foldl_push_interp ext _ _ _ rows root0 root hraw hw0 hsafe (newRoot_shape hc h0) h'
+  obtain ⟨ls, hd, hall⟩ := foldl_push_interp ext _ _ _ rows root0 root hraw hnar hw0 hsafe (newRoot_shape hc h0) h'
   rw [hd0, List.nil_append] at hd
   refine ⟨by rw [hd]; exact hall, hrows.2.2.2, ?_⟩
   obtain ⟨p, bl, c, s, hr0⟩ := newRoot_struct h0
@@ -389,6 +464,30 @@ example : ∃ b', push {} exDict (.str "x") = .ok b' ∧ dec b' = dec exDict ++ 
     interpDT {} (.dictionary .uint8 .utf8) false [] (.str "x") = .ok (.str [120]) :=
   ⟨.dictionary "$.d" (.leaf "$.d.key" (.int .u8) none [0, 0]) (.bytes "$.d.value" .utf8 none [0, 1] [120]) ["x"],
     by decide +kernel, by decide +kernel, by decide +kernel⟩
+
+/-- R2 / R3 with a raw stream at a struct position (the root, and the nested struct `s`): alternating streams, keys in
+any order, an unknown key; the hypotheses hold and the stored rows are the documented ones -/
+def exRawFields : List Field :=
+  [.mk "a" .int32 true [], .mk "s" (.struct (.cons (.mk "x" .utf8 false []) .nil)) false []]
+def exRawRow : SVal :=
+  .mapRaw (.key (.str "s") (.value (.mapRaw (.key (.str "zz") (.value .unit (.key (.str "x") (.value (.str "v") .nil)))))
+    (.key (.str "a") (.value (.int .i8 3) .nil))))
+
+example : structStreamsAlternate exRawRow = true ∧ noRaw exRawRow = false ∧ narrowRoot exRawFields = true ∧
+    exRawFields.all coveredF = true := by decide +kernel
+
+example : (do let root ← runRows {} exRawFields [exRawRow]; pure (dec root) : R (List LVal)) =
+    (do let lv ← interpRow {} exRawFields exRawRow; pure [lv]) ∧
+    (interpRow {} exRawFields exRawRow).isOk = true := by decide +kernel
+
+/-- why `covered` excludes dictionaries with other value types (behaviour confirmed on the crate, notes/C01.md): `build_builder`
+ACCEPTS `Dictionary(Int8, Int32)`, every scalar is forwarded to the value builder as a string and an `Int32` builder refuses
+strings — while `Spec.interpScalar` still answers with the string: the specification clause for dictionaries is only right
+for Utf8 / LargeUtf8 values -/
+example : (newDT "$.d" (.dictionary .int8 .int32) false []).isOk = true ∧
+    (do let b ← newDT "$.d" (.dictionary .int8 .int32) false []; push {} b (.int .i32 1) : R B).isErr = true ∧
+    interpDT {} (.dictionary .int8 .int32) false [] (.int .i32 1) = .ok (.str [49]) ∧
+    covered (.dictionary .int8 .int32) = false := by decide +kernel
 
 /-- R3 hypotheses are satisfiable with a nested, nullable schema: covered, safe, and rows in two presentations -/
 example : [Field.mk "a" (.struct (.cons (.mk "x" .int8 true []) (.cons (.mk "y" .utf8 false []) .nil))) true []].all coveredF = true := by
